@@ -490,3 +490,35 @@ def hashtype_byte_stripped(ctx):
         ctx.saw('DER input: convert_der_sig(%s)' % show(arg)[:80])
         ctx.require(arg == ('slice', SIG, None, -1) or show(arg) == 'signature[:-1]', q, 'the DER decoder is given `%s`, expected signature[:-1] for every value of the last byte' % show(arg)[:90], node,
                     'sign(z, k, hash_type=0x41).as_der_encoded() - and every signature whose last byte is not 01/02/03/81/82/83 - makes verify() raise instead of returning the ECDSA verdict')
+
+
+@PROP.obligation('C13.nonce-one-spelling', canaries=[
+    mut.drop_stmt('keys', 'Signature.create', 'txid = txid.lower()', 'the nonce is derived from the digest text as the caller spelled it'),
+])
+def nonce_one_spelling(ctx):
+    """"A deterministic function of key and message": RFC6979 is fed the hex TEXT of the digest, and a digest has two spellings as text
+    (a1.. / A1..). Signature.create, evaluated for a digest given as str, hands RFC6979 a case-normalised text (x.lower() / .upper(), the
+    hex of bytes) on every path - never the caller's string itself, for which sign(z.upper(), key) != sign(z, key)."""
+    q, fn, rets = _create_exits(ctx, True)
+    TX = ('var', 'txid')
+    n = 0
+
+    def canonical(t):
+        if isinstance(t, tuple) and t and t[0] == 'mcall' and t[2] in ('lower', 'upper'):
+            return True
+        if isinstance(t, tuple) and t and t[0] == 'cond':
+            return canonical(t[2]) and canonical(t[3])
+        if isinstance(t, tuple) and t and t[0] in ('hex', 'hash'):
+            return True
+        if isinstance(t, tuple) and t and t[0] in ('call', 'mcall') and t[0 + (1 if t[0] == 'call' else 2)] in ('double_sha256', 'hex'):
+            return True
+        return False
+    for e in rets:
+        for s_ in subterms(('w', term(e.value))):
+            if isinstance(s_, tuple) and len(s_) >= 3 and s_[0] == 'call' and s_[1] == 'RFC6979' and s_[2]:
+                n += 1
+                arg = s_[2][0]
+                ctx.saw('RFC6979(%s, ...)' % show(arg)[:100])
+                ctx.require(canonical(arg), q, 'the RFC6979 nonce is derived from `%s`: the digest text as spelled by the caller' % show(arg)[:100], e.node or fn,
+                            'sign(z.upper(), key) and sign(z, key) are two different signatures of the same message under the same key')
+    ctx.floor(n, 1, 'RFC6979 nonce derivations')
